@@ -74,6 +74,28 @@ Second round (eight more changes, `*-2`), asked to need something specific to ma
 * C13-2 (sourceMap: previous set looked up under the client path) - first missed: no session used a sourceMap; a third
   of the replayed sessions (half of those that replace a source's set) now go through one; caught.
 * C14-2 (DR7 written before the address registers) - caught as it was (`accepted_add_not_armed`).
+
+Third round (six more, `*-3`, for C04, C10, C12, C16, C17, C19):
+
+* C04-3 (rows of a file index sorted by line: one place per line and unit) - caught as it was (`line_instantiation_missed`).
+* C16-3 (`sp & !0xf - RED_ZONE`: the red zone is skipped only when bit 7 of rsp is set) - caught as it was
+  (`red_zone_clobbered`).
+* C17-3 (DIE-tree parent lost after a range-less subprogram with children: namespace of functions without a linkage
+  name) - first missed: the puppet had no such function inside a module; `#[no_mangle]` functions in `ffi`,
+  `ffi::deep` and `a::b` (after the impl blocks) added; caught (`missed_match`).
+* C19-3 (DWARF registers 1 and 2 swapped in the register map handed to expression evaluation) - first missed: the
+  quick tier had no optimised build and no value in rdx/rcx; puppet `regs8` (four and six integer arguments, judged at
+  the first statements of the callee) is built at opt-level 1 in both tiers; caught (`wrong_register`).
+* C12-3 (a `stackTrace` whose generated-source progress was cancelled in advance is answered twice) - first missed: no
+  session cancelled by `progressId`; sessions `cancel-next-progress`, `cancel-progress-storm` added (progress ids are
+  predictable); caught (`duplicate_response`).
+* C10-3 (only the thread of the *next* queue entry is kept stopped when a queued signal is injected) - first missed
+  twice: (1) the driver and puppet knew two threads only - now up to four, with scripts that bring three queue-worthy
+  signals into delivery-stops at once (the tracer is held after the wait that returns the first); (2) the loss then
+  happened but the monitor attributed it to the listed "injected into an event-stop" finding - `TraceKernelSig.tla` now
+  remembers which request cancelled a delivery-stop's signal (`supby`), and an injection into an event-stop after a
+  cancel by `cont` (never the case on the pinned tree, where only a user's `stepi` leaves such a stop) is a cause of
+  its own, not covered by the listed finding; caught (`injected_into_event_stop`, `signal_lost`).
 """
 (V / "README.md").write_text(out)
 print(out[-2500:])
